@@ -261,11 +261,12 @@ def engArithScalar (s : St) (op : String) (tc : List String) (t : Dense) (sc : S
           let s ← eOp s c.win dB f fv
           pure ⟨s, none, .fresh c⟩
 
-/-- fresh tensor of the given dtype and shape, engine-default (row-major) layout, zero-filled:
-    `NewDense(dt, shape.Clone(), WithEngine(e))` -/
-def newDenseZero (s : St) (dt : String) (sh : Shape) : St × Dense :=
+/-- fresh zero-filled tensor of the given dtype and shape: `NewDense(dt, shape.Clone(), WithEngine(e))` (row-major), and
+    with `col` the result of `newDenseLike(e, dt, t)` for a column-major `t` (`…, AsFortran(nil)`): column-major default
+    strides and order flag -/
+def newDenseZero (s : St) (dt : String) (sh : Shape) (col : Bool := false) : St × Dense :=
   let n := if sh.isEmpty then 1 else (totalSize sh).toNat
-  Dense.fresh s dt sh false (Array.replicate n Val.zero)
+  Dense.fresh s dt sh col (Array.replicate n Val.zero)
 
 /-- comparison `StdEng.<Cmp>(a, b, opts...)`; `op` is the comparison, `op ++ ".same"` its 1/0 form -/
 def engCmpVV (s : St) (op : String) (tc : List String) (a b : Dense) (o : Opts) : Res EngOut := do
@@ -281,13 +282,13 @@ def engCmpVV (s : St) (op : String) (tc : List String) (a b : Dense) (o : Opts) 
     (match fo.reuse with | some r => r.requiresIterator | none => false) ||
     !sameOrd a b ||
     (match fo.reuse with | some r => !sameOrd a r || !sameOrd b r | none => false)
-  -- "check to see if anything needs to be created"
+  -- "check to see if anything needs to be created": `newDenseLike(e, dt, a)`, the operand's shape and data order
   let (s, reuse, created) : St × Option Dense × Bool :=
     match fo.reuse with
     | some r => (s, some r, false)
     | none =>
-      if same && fo.safe then let (s, d) := newDenseZero s a.dt a.shape; (s, some d, true)
-      else if !same && fo.safe then let (s, d) := newDenseZero s "b" a.shape; (s, some d, true)
+      if same && fo.safe then let (s, d) := newDenseZero s a.dt a.shape a.ap.o.col; (s, some d, true)
+      else if !same && fo.safe then let (s, d) := newDenseZero s "b" a.shape a.ap.o.col; (s, some d, true)
       else (s, none, false)
   let retOf (r : Dense) : Ret := if created then .fresh r else .reuse
   let reuseOut (r : Dense) : Option Dense := if created then fo.reuse else some r
@@ -342,8 +343,8 @@ def engCmpScalar (s : St) (op : String) (tc : List String) (t : Dense) (sc : Sca
     match fo.reuse with
     | some r => (s, some r, false)
     | none =>
-      if same && fo.safe then let (s, d) := newDenseZero s t.dt t.shape; (s, some d, true)
-      else if !same && fo.safe then let (s, d) := newDenseZero s "b" t.shape; (s, some d, true)
+      if same && fo.safe then let (s, d) := newDenseZero s t.dt t.shape t.ap.o.col; (s, some d, true)
+      else if !same && fo.safe then let (s, d) := newDenseZero s "b" t.shape t.ap.o.col; (s, some d, true)
       else (s, none, false)
   let retOf (r : Dense) : Ret := if created then .fresh r else .reuse
   let reuseOut (r : Dense) : Option Dense := if created then fo.reuse else some r
@@ -377,6 +378,9 @@ def engCmpScalar (s : St) (op : String) (tc : List String) (t : Dense) (sc : Sca
     match reuse with
     | none =>
       let s ← eOp s dA dB fS
+      -- scalar on the left of a one-element tensor: the kernel has put the result into the scalar's header; it is
+      -- copied back into the tensor
+      let s ← (if !leftTensor && dA.len == 1 && dB.len == 1 then Dense.rawCopy s dB dA else pure s)
       pure ⟨s, fo.reuse, .a⟩
     | some r =>
       if same && fo.safe then
@@ -477,9 +481,33 @@ def engUnary (s : St) (g : UnF) (tc ktypes : List String) (strict : Bool) (a : D
         let s ← kUn s c.win g
         pure ⟨s, none, .fresh c⟩
 
-/-- `StdEng.Map(fn, a, opts...)` (reached through `Dense.Apply`): the function is applied to the
-    data of the *destination* (`used`), which is the reuse tensor whenever one is given. -/
-def engMap (s : St) (g : UnF) (mapTypes : List String) (a : Dense) (o : Opts) (errForm : Bool := false) : Res EngOut := do
+/-- `E.Map` on the window `w`, or (`useIter`) `E.MapIter` on it with the iterator of `d` -/
+def mapKern (useIter : Bool) (s : St) (d : Dense) (w : Win) (gi : UnF) : Res St :=
+  if useIter then do kUnIter s w gi (← d.itStream s) else kUn s w gi
+
+/-- What `StdEng.Map` returns once the kernels have run (`given`: the caller's destination, `reuse`: the destination
+    used, `created`: it is the copy made in safe mode). A destination that has exactly the operand's shape is left alone
+    (the result has been written through its own access pattern); otherwise `reuseCheckShape(reuse, a.Shape())`. -/
+def mapFin (a : Dense) (given reuse : Option Dense) (created : Bool) (s : St) : Res EngOut :=
+  match reuse with
+  | some r =>
+    if r.dims == a.dims && shapeEq r.shape a.shape then
+      (if created then pure ⟨s, given, .fresh r⟩ else pure ⟨s, some r, .reuse⟩) else
+    -- reshape to a's shape, drop a pending transpose / view flag
+    -- lower-case `reshape`: setShape (default strides for the order) + sanity
+    let r' : Dense := { r with ap := { r.ap with shape := a.shape, strides := if a.shape.isEmpty then [] else Dense.defaultStrides r.ap.o.col a.shape, fin := true } }
+    if !r'.view && (r'.win.len : Int) != totalSize a.shape && !a.shape.isEmpty then
+      (if created then pure ⟨s, given, .failed⟩ else pure ⟨s, some r', .failed⟩)
+    else
+      let r' := { r' with old := none, tw := none, view := false }
+      if created then pure ⟨s, given, .fresh r'⟩ else pure ⟨s, some r', .reuse⟩
+  | none => pure ⟨s, none, .a⟩
+
+/-- `StdEng.Map(fn, a, opts...)` (reached through `Dense.Apply`). Safe mode without destination: `fn` is applied in
+    place to a copy of the operand (`Materialize` / `Clone`). `WithReuse(r)`: `r` is given the operand's elements
+    (`storage.Copy` / `CopyIter`), then `fn` is applied to them in place. `WithIncr(r)`: `fn` is applied to a clone of the
+    operand, which is then added to `r` (`E.Add` / `E.AddIter`). `UseUnsafe()`: in place on the operand. -/
+def engMap (s : St) (g : UnF) (mapTypes : List String) (a : Dense) (o : Opts) : Res EngOut := do
   let (s, fo) ← handleFuncOpts s a.shape a.dt a.ap.o.col true o
   -- create reuse in safe mode
   let (s, reuse, created) ← (match fo.reuse with
@@ -493,24 +521,41 @@ def engMap (s : St) (g : UnF) (mapTypes : List String) (a : Dense) (o : Opts) (e
         | (s, none) => let (s, c) ← a.clone s; pure (s, some c, true)
       else pure (s, none, false) : Res (St × Option Dense × Bool))
   let useIter := a.requiresIterator || (match reuse with | some r => r.requiresIterator | none => false)
-  let used : Dense := if !fo.safe then a else reuse.getD a
-  if !mapTypes.contains a.dt then throwErr "Cannot map fn" else
-  if fo.incr && a.dt == "b" then throwErr "Cannot perform increment on bool" else
-  -- `MapIncr*`: `a[i] += fn(a[i])`; the kernels for the error-returning form, `MapIncrErr*` / `MapIterIncrErr*`,
-  -- assign instead: `a[i] = x`
-  -- (the one-element special case of `E.Map` adds in both forms)
-  let gi : UnF := if fo.incr && !(errForm && used.win.len != 1) then (fun x => .app2 "add" x (g x)) else g
-  let s ← (if useIter then do kUnIter s used.win gi (← used.itStream s) else kUn s used.win gi)
-  match reuse with
-  | some r =>
-    -- reuseCheckShape(reuse, a.Shape()): reshape to a's shape, drop a pending transpose / view flag
-    -- lower-case `reshape`: setShape (default strides for the order) + sanity
-    let r' : Dense := { r with ap := { r.ap with shape := a.shape, strides := if a.shape.isEmpty then [] else Dense.defaultStrides r.ap.o.col a.shape, fin := true } }
-    if !r'.view && (r'.win.len : Int) != totalSize a.shape && !a.shape.isEmpty then
-      (if created then pure ⟨s, fo.reuse, .failed⟩ else pure ⟨s, some r', .failed⟩)
-    else
-      let r' := { r' with old := none, tw := none, view := false }
-      if created then pure ⟨s, fo.reuse, .fresh r'⟩ else pure ⟨s, some r', .reuse⟩
-  | none => pure ⟨s, none, .a⟩
+  let sup := mapTypes.contains a.dt
+  let addF : BinF := fun x y => .app2 "add" x y
+  if !fo.safe then
+    -- in place on the operand's own data; with an increment tensor the `MapIncr*` / `MapIncrErr*` kernels run on it:
+    -- `a[i] += fn(a[i])`
+    if !sup then throwErr "Cannot map fn" else
+    if fo.incr && a.dt == "b" then throwErr "Cannot perform increment on bool" else
+    let gi : UnF := if fo.incr then (fun x => .app2 "add" x (g x)) else g
+    let s ← mapKern useIter s a a.win gi
+    mapFin a fo.reuse reuse created s
+  else match fo.incr, fo.reuse with
+    | true, some r =>
+      -- `used = a.Clone().hdr()`, `fn` over it with a's iterator, then `E.Add(dataReuse, used)` /
+      -- `E.AddIter(dataReuse, used, rit, ait)`
+      let (s, c) ← a.clone s
+      if !sup then throwErr "Cannot map fn" else
+      let s ← mapKern useIter s a c.win g
+      if a.dt == "b" then throwErr "Unsupported type for Add" else
+      let s ← (if useIter then do eOpIter s r.win c.win addF (← r.itStream s) (← a.itStream s) else eOp s r.win c.win addF)
+      mapFin a fo.reuse reuse created s
+    | false, some r =>
+      -- the destination is given the operand's elements, `fn` is then applied to them in place
+      let s ← (if useIter then do
+                 Dense.copyIterOffsets s r.win a.win ((← r.itStream s).map (·.1)) ((← a.itStream s).map (·.1))
+               else Dense.rawCopy s r.win a.win)
+      if !sup then return ⟨s, some r, .failed⟩
+      let s ← mapKern useIter s r r.win g
+      mapFin a fo.reuse reuse created s
+    | _, none =>
+      -- the copy made above
+      match reuse with
+      | some c =>
+        if !sup then throwErr "Cannot map fn" else
+        let s ← mapKern useIter s c c.win g
+        mapFin a fo.reuse reuse created s
+      | none => mapFin a fo.reuse reuse created s
 
 end TM
